@@ -5,8 +5,15 @@ Tie: the real DENMTransmissionManagement / EmergencyVehicleApproachingService / 
 in-process under a virtual clock and a deterministic cooperative scheduler (time.sleep, threading.Thread patched in
 the transmission-management module's namespace; TimeService.time patched by realstack.VClock); every BTPDataRequest
 is captured with its virtual time stamp, decoded with the repository's DENM coder and compared with the Lean model's
-emission list.  Oracle: `oracle_event` / `oracle_scenario` / `oracle_rx` transcribe the property text and are applied
-to the REAL timed emission log and the REAL LDM content.
+emission list.  Oracle: `oracle_event` / `oracle_scenario` / `oracle_rx` / `oracle_rx_maint` transcribe the property
+text and are applied to the REAL timed emission log and the REAL LDM content.
+
+Round 3 additions: failure injection below the service (transport raises / coder raises at chosen repetitions, fix
+C17-F3), callers that overwrite the position dictionary of a running request (fix C17-F4), reception of every subset
+of the optional management fields into the LDM built by LDMFactory WITH its reactive maintenance running on the
+virtual clock (known finding C17-KF1 = C12-KF1 seen through reception), and concurrent origination of several events
+under harness/dsched.py (pre-emption at every access inside `allocate_sequence_number`; `AllocRun`), tied to
+`Generated/Denm.lean` (harness/gen_denm.py) and theorem `alloc_section_tied`.
 """
 from __future__ import annotations
 
@@ -17,6 +24,7 @@ import types
 
 from common import Infra, corpus
 import realstack as rs
+import dsched
 
 import flexstack.facilities.decentralized_environmental_notification_service.denm_transmission_management as tm_mod
 import flexstack.facilities.local_dynamic_map.ldm_maintenance_reactive as ldm_mr_mod
@@ -32,7 +40,7 @@ from flexstack.applications.road_hazard_signalling_service.emergency_vehicle_app
     EmergencyVehicleApproachingService)
 from flexstack.facilities.local_dynamic_map.factory import LDMFactory
 from flexstack.facilities.local_dynamic_map.ldm_classes import (
-    Location, ReferencePosition, PositionConfidenceEllipse, Altitude, TimestampIts)
+    Location, ReferencePosition, PositionConfidenceEllipse, Altitude, TimestampIts, AddDataProviderReq, TimeValidity)
 from flexstack.facilities.local_dynamic_map.ldm_constants import DENM as DENM_APP_ID
 from flexstack.btp.service_access_point import BTPDataIndication
 from flexstack.geonet.service_access_point import GeoBroadcastHST, HeaderType
@@ -45,12 +53,24 @@ TRUSTED = [
     "asn1tools UPER DENM codec (the emitted payload is decoded with the repository's own coder)",
     "float glue int((t - ITS_EPOCH + 5) * 1000) of TimeService.timestamp_its and int(lat * 1e7) of the emergency "
     "vehicle service: compared with a tolerance of 1 unit (counted as tolerance_skips)",
+    "harness/dsched.py (deterministic scheduler for real threads: opcode-level pre-emption points inside "
+    "allocate_sequence_number, scheduler-aware Lock/Thread stand-ins) and harness/gen_denm.py (ast pass producing "
+    "Generated/Denm.lean); the step from CPython bytecode to the micro-blocks `rd`/`wrA`/`wrL` of "
+    "FlexModel/Fac/DenmConc.lean (one block per access to self.sequence_number) is by inspection",
+    "the LDM's collection (`collect_trash`) is abstract in the C17 model (deletion test `del`, modelled in detail by "
+    "C12); the harness classifies the new record with `kf1_region` / `in_area_of_maintenance`",
 ]
 ASSUMPTIONS = [
     "virtual time: a repetition thread runs only when the scheduler resumes it; sleep(d) wakes exactly d later",
     "events of one station are requested in the order of their start times (sequence numbers are allocated when the "
     "repetition thread starts)",
     "fewer than 65536 events of one station are alive at the same time",
+    "self.vehicle_data of the transmission management is not rebound while an event repeats (nothing in the "
+    "repository does; the code re-reads it at every repetition, the model reads the station id once per event)",
+    "failure injection: a repetition 'fails' by btp_router.btp_data_request or denm_coder.encode raising an ordinary "
+    "Exception; the one-shot send_collision_risk_warning_denm reports such a failure to its caller (not injected)",
+    "known finding C17-KF1 (= C12-KF1, pinned by tests/.../test_ldm_maintenance.py): a received DENM whose event "
+    "position is next to the LDM position is deleted by the collection triggered by its own add_provider_data",
 ]
 
 ITS_SUB = 1072915200000 - 5000   # unix ms -> ITS ms
@@ -140,17 +160,57 @@ class Sched:
             self.clock.ms = max(self.clock.ms, t_ms)
 
 
-class CaptureBTP:
-    """capturing BTP router: records (virtual ms, event tag, BTPDataRequest)"""
+class InjectedTransportError(OSError):
+    """raised by the capturing transport when a scenario asks repetition k of an event to fail below the DEN service"""
 
-    def __init__(self, sched):
-        self.sched, self.log, self.cb = sched, [], {}
+
+class InjectedEncodeError(ValueError):
+    """raised by the coder stand-in when a scenario asks repetition k of an event to be unencodable"""
+
+
+def fault_of(evs, sched):
+    """fault requested by the scenario for the repetition that is running now: 't' / 'e' / None.  The repetition index
+    is derived from the virtual clock (k = elapsed / interval), not from a call counter, so that it does not depend on
+    how the code under test reacts to earlier faults."""
+    tag = sched.cur
+    if evs is None or tag is None or not (0 <= tag < len(evs)):
+        return None
+    e = evs[tag]
+    if not e.get("faults") or e["i"] <= 0:
+        return None
+    k = (sched.clock.ms - T0 - e["start"]) // e["i"]
+    return e["faults"].get(str(k))
+
+
+class CaptureBTP:
+    """capturing BTP router: records (virtual ms, event tag, BTPDataRequest, transport raised?)"""
+
+    def __init__(self, sched, evs=None):
+        self.sched, self.log, self.cb, self.evs = sched, [], {}, evs
 
     def btp_data_request(self, request):
-        self.log.append((self.sched.clock.ms, self.sched.cur, request))
+        failed = fault_of(self.evs, self.sched) == "t"
+        self.log.append((self.sched.clock.ms, self.sched.cur, request, failed))
+        if failed:
+            raise InjectedTransportError("injected: transport layer refuses the DENM")
 
     def register_indication_callback_btp(self, port, callback):
         self.cb[port] = callback
+
+
+class FaultyCoder:
+    """the repository's DENM coder; `encode` raises for the repetitions the scenario marks 'e'"""
+
+    def __init__(self, inner, sched, evs):
+        self.inner, self.sched, self.evs = inner, sched, evs
+
+    def encode(self, denm):
+        if fault_of(self.evs, self.sched) == "e":
+            raise InjectedEncodeError("injected: DENM cannot be encoded")
+        return self.inner.encode(denm)
+
+    def decode(self, data):
+        return self.inner.decode(data)
 
 
 class _Patched:
@@ -201,55 +261,72 @@ def event_position(lat, lon, alt=800001):
 
 
 def run_scenario(sc, max_sleeps=None):
-    """run one scenario on the real code.  Returns per-event observation lists + endings"""
+    """run one scenario on the real code.  Returns per-event observation lists + endings.
+    Optional per-event keys: `faults` {"k": "t"|"e"} (repetition k: transport raises / coder raises),
+    `mutate` {"at": ms after the request, "lat", "lon"} (the CALLER overwrites the position dictionary it passed)."""
     evs = sc["events"]
     with rs.VClock(T0) as clock:
         sched = Sched(clock, max_sleeps)
-        btp = CaptureBTP(sched)
+        btp = CaptureBTP(sched, evs)
         with _Patched(sched):
             den = DecentralizedEnvironmentalNotificationService(btp, VehicleData(station_id=sc["station"], station_type=5))
             tmm = den.denm_transmission_management
+            if any(e.get("faults") for e in evs):
+                tmm.denm_coder = FaultyCoder(tmm.denm_coder, sched, evs)
             if sc.get("seq0"):
                 tmm.sequence_number = sc["seq0"]
-            eva = None
-            order = sorted(range(len(evs)), key=lambda j: (evs[j]["start"], j))
+            state = {"eva": None}
+            held = {}
             errors = {}
-            for j in order:
+            actions = [(evs[j]["start"], 0, j, "start") for j in range(len(evs))]
+            actions += [(evs[j]["start"] + evs[j]["mutate"]["at"], 1, j, "mutate") for j in range(len(evs)) if evs[j].get("mutate")]
+            actions.sort(key=lambda a: (a[0], a[1], a[2]))
+
+            def start_event(j):
                 e = evs[j]
-                sched.run_until(T0 + e["start"])
                 sched.next_tag = j
-                try:
-                    if e["kind"] == "direct":
-                        req = DENRequest(denm_interval=e["i"], time_period=e["T"], detection_time=clock.ms - ITS_SUB,
-                                         event_position=event_position(e["lat"], e["lon"]),
-                                         relevance_distance="lessThan200m", relevance_traffic_direction="upstreamTraffic",
-                                         rhs_cause_code="emergencyVehicleApproaching95", rhs_subcause_code=1,
-                                         rhs_event_speed=30, rhs_vehicle_type=0)
-                        if e.get("sync"):
-                            sched.cur = j
-                            try:
-                                tmm.trigger_denm_messages(req)
-                            finally:
-                                sched.cur = None
-                        else:
-                            tmm.request_denm_sending(req)
-                    elif e["kind"] == "eva":
-                        if eva is None:
-                            eva = EmergencyVehicleApproachingService(den, duration=e["T"])
-                        eva.denm_duration, eva.denm_interval = e["T"], e["i"]
-                        eva.trigger_denm_sending({"lat": e["lat"] / 1e7, "lon": e["lon"] / 1e7, "altHAE": 12.5})
-                    elif e["kind"] == "crw":
-                        req = DENRequest.with_collision_risk_warning(
-                            TimestampIts(clock.ms - ITS_SUB),
-                            ReferencePosition(e["lat"], e["lon"], PositionConfidenceEllipse(4095, 4095, 3601),
-                                              Altitude(800001, "unavailable")))
+                if e["kind"] == "direct":
+                    held[j] = event_position(e["lat"], e["lon"])
+                    req = DENRequest(denm_interval=e["i"], time_period=e["T"], detection_time=clock.ms - ITS_SUB,
+                                     event_position=held[j],
+                                     relevance_distance="lessThan200m", relevance_traffic_direction="upstreamTraffic",
+                                     rhs_cause_code="emergencyVehicleApproaching95", rhs_subcause_code=1,
+                                     rhs_event_speed=30, rhs_vehicle_type=0)
+                    if e.get("sync"):
                         sched.cur = j
                         try:
-                            tmm.send_collision_risk_warning_denm(req)
+                            tmm.trigger_denm_messages(req)
                         finally:
                             sched.cur = None
                     else:
-                        raise Infra(f"unknown event kind {e['kind']}")
+                        tmm.request_denm_sending(req)
+                elif e["kind"] == "eva":
+                    if state["eva"] is None:
+                        state["eva"] = EmergencyVehicleApproachingService(den, duration=e["T"])
+                    eva = state["eva"]
+                    eva.denm_duration, eva.denm_interval = e["T"], e["i"]
+                    eva.trigger_denm_sending({"lat": e["lat"] / 1e7, "lon": e["lon"] / 1e7, "altHAE": 12.5})
+                elif e["kind"] == "crw":
+                    req = DENRequest.with_collision_risk_warning(
+                        TimestampIts(clock.ms - ITS_SUB),
+                        ReferencePosition(e["lat"], e["lon"], PositionConfidenceEllipse(4095, 4095, 3601),
+                                          Altitude(800001, "unavailable")))
+                    sched.cur = j
+                    try:
+                        tmm.send_collision_risk_warning_denm(req)
+                    finally:
+                        sched.cur = None
+                else:
+                    raise Infra(f"unknown event kind {e['kind']}")
+
+            for (t, _, j, what) in actions:
+                sched.run_until(T0 + t)
+                if what == "mutate":
+                    if j in held:       # the application re-uses its dictionary for something else
+                        held[j]["latitude"], held[j]["longitude"] = evs[j]["mutate"]["lat"], evs[j]["mutate"]["lon"]
+                    continue
+                try:
+                    start_event(j)
                 except _Stop:
                     errors[j] = "stopped"
                 except Infra:
@@ -258,7 +335,7 @@ def run_scenario(sc, max_sleeps=None):
                     errors[j] = type(ex).__name__
             sched.run_until(None)
     obs = [[] for _ in evs]
-    for (t, tag, rq) in btp.log:
+    for (t, tag, rq, failed) in btp.log:
         d = _COD.decode(rq.data)
         m = d["denm"]["management"]
         ar, ptt = rq.gn_area, rq.gn_packet_transport_type
@@ -267,7 +344,7 @@ def run_scenario(sc, max_sleeps=None):
                "ref": m["referenceTime"], "pos": [m["eventPosition"]["latitude"], m["eventPosition"]["longitude"]],
                "port": rq.destination_port, "ht": ptt.header_type.name, "hst": getattr(ptt.header_subtype, "name", str(ptt.header_subtype)),
                "hst_is_circle": ptt.header_type == HeaderType.GEOBROADCAST and ptt.header_subtype == GeoBroadcastHST.GEOBROADCAST_CIRCLE,
-               "area": [ar.latitude, ar.longitude, ar.a, ar.b, ar.angle], "data": rq.data}
+               "area": [ar.latitude, ar.longitude, ar.a, ar.b, ar.angle], "data": rq.data, "failed": failed}
         if tag is None or not (0 <= tag < len(evs)):
             raise Infra(f"emission outside any event (tag {tag})")
         obs[tag].append(rec)
@@ -289,9 +366,14 @@ def oracle_event(e, log, station):
     bad = []
     i, T, start = e["i"], e["T"], e["start"]
     want_n = 1 if e["kind"] == "crw" else (ceil_div(T, i) if T > 0 else 0)
-    if len(log) != want_n:
-        bad.append(f"count {len(log)} != ceil(T/i) {want_n}")
-    for k, r in enumerate(log):
+    faults = e.get("faults") or {}
+    # a repetition whose DENM cannot be encoded has nothing to hand over; every other repetition of the schedule is
+    # handed to the transport layer (whether or not the transport then raises)
+    want_ks = [k for k in range(want_n) if faults.get(str(k)) != "e"]
+    if len(log) != len(want_ks):
+        bad.append(f"count {len(log)} != ceil(T/i) {want_n}" + (f" minus {want_n - len(want_ks)} unencodable" if len(want_ks) != want_n else "")
+                   + (f" (repetitions failing below the service: {faults})" if faults else ""))
+    for k, r in zip(want_ks, log):
         if r["t"] != start + k * i:
             bad.append(f"message {k} at offset {r['t'] - start} ms, schedule says {k * i}")
             break
@@ -335,6 +417,24 @@ def oracle_scenario(sc, obs):
 
 # ---------------------------------------------------------------------------------------------- model
 
+_TX_VARIANTS = None
+
+
+def tx_variants():
+    """which loop / request handling does the tree under test have?  Probed on the real code so that the MODEL side of
+    the correspondence follows the code (the oracle does not: on a tree without the repairs the violations are
+    reported).  loop: 'skip' (C17-F3 repaired: a failing repetition is skipped) / 'abort' (the thread dies);
+    pos: 'copy' (C17-F4 repaired: position taken at request time) / 'ref' (read by reference at every repetition)."""
+    global _TX_VARIANTS
+    if _TX_VARIANTS is None:
+        obs, _ = run_scenario({"station": 1, "seq0": 0, "events": [
+            {"kind": "direct", "i": 100, "T": 200, "lat": 1, "lon": 2, "start": 0, "faults": {"0": "t"}},
+            {"kind": "direct", "i": 100, "T": 200, "lat": 3000, "lon": 4000, "start": 1000, "mutate": {"at": 50, "lat": 7000, "lon": 8000}}]})
+        _TX_VARIANTS = {"loop": "skip" if len(obs[0]) == 2 else "abort",
+                        "pos": "copy" if len(obs[1]) == 2 and obs[1][1]["pos"] == [3000, 4000] else "ref"}
+    return _TX_VARIANTS
+
+
 def model_lines(sc):
     evs = sc["events"]
     lines = [f"tm {sc['station']} {sc.get('seq0', 0)}"]
@@ -343,6 +443,13 @@ def model_lines(sc):
         e = evs[j]
         if e["kind"] == "crw":
             lines.append(f"crw {T0 + e['start']} {ITS_SUB} {e['lat']} {e['lon']}")
+        elif e.get("faults"):
+            toks = " ".join(f"{v}{k}" for k, v in sorted(e["faults"].items(), key=lambda kv: int(kv[0])))
+            lines.append(f"eventf {tx_variants()['loop']} {T0 + e['start']} {ITS_SUB} {e['i']} {e['T']} {e['lat']} {e['lon']} {toks}")
+        elif e.get("mutate") and e["kind"] == "direct" and tx_variants()["pos"] == "ref":
+            mu = e["mutate"]
+            lines.append(f"eventref {T0 + e['start']} {ITS_SUB} {e['i']} {e['T']} {e['lat']} {e['lon']} "
+                         f"{T0 + e['start'] + mu['at']} {mu['lat']} {mu['lon']}")
         else:
             lines.append(f"event {T0 + e['start']} {ITS_SUB} {e['i']} {e['T']} {e['lat']} {e['lon']}")
     return lines, order
@@ -356,7 +463,7 @@ def parse_model_event(line):
         f = tok.split(":")
         msgs.append({"off": int(f[0]), "ref": int(f[1]), "aid": [int(f[2]), int(f[3])], "station": int(f[4]),
                      "port": int(f[5]), "shape": f[6], "area": [int(f[10]), int(f[11]), int(f[7]), int(f[8]), int(f[9])],
-                     "pos": [int(f[12]), int(f[13])]})
+                     "pos": [int(f[12]), int(f[13])], "failed": len(f) > 14 and f[14] == "x"})
     if n != len(msgs):
         raise Infra("model line malformed: " + line[:200])
     return ending, msgs
@@ -368,10 +475,15 @@ def compare_model(ctx, sc, obs, endings, out, order):
         e = evs[j]
         ending, msgs = parse_model_event(line)
         real_end = endings.get(j, "fin")
-        want_end = {"fin": "fin", "sleeperr": "ValueError", "nonterm": "stopped"}[ending]
+        want_end = {"fin": "fin", "sleeperr": "ValueError", "nonterm": "stopped"}.get(ending)
+        if ending.startswith("aborted"):      # old loop: the thread died at the failing repetition
+            want_end = {"t": "InjectedTransportError", "e": "InjectedEncodeError"}.get((e.get("faults") or {}).get(ending[7:]))
         log = obs[j]
         if ending == "nonterm":
             continue   # compared by check_degenerate (prefix of an infinite stream)
+        if e.get("faults") and e.get("mutate") and tx_variants() != {"loop": "skip", "pos": "copy"}:
+            ctx.cover("model_skips_faults_and_mutation_on_unrepaired_tree")   # no combined OLD variant in the model
+            continue
         ok = real_end == want_end and len(msgs) == len(log)
         tol = 1 if e["kind"] == "eva" else 0
         if ok:
@@ -381,14 +493,14 @@ def compare_model(ctx, sc, obs, endings, out, order):
                         or m["area"][2:] != r["area"][2:]
                         or max(abs(m["area"][0] - r["area"][0]), abs(m["area"][1] - r["area"][1]),
                                abs(m["pos"][0] - r["pos"][0]), abs(m["pos"][1] - r["pos"][1])) > tol
-                        or abs(m["ref"] - r["ref"]) > 1):
+                        or abs(m["ref"] - r["ref"]) > 1 or m["failed"] != r["failed"]):
                     ok = False
                     break
                 if m["ref"] != r["ref"]:
                     ctx.cover("tolerance_skips_ref_1ms")
         if not ok:
             ctx.mismatch("denm.event", {"scenario": strip(sc), "event": j},
-                         {"ending": real_end, "n": len(log), "first": [{k: v for k, v in r.items() if k != "data"} for r in log[:2]]},
+                         {"ending": real_end, "n": len(log), "first": [{k: v for k, v in r.items() if k != "data"} for r in log[:3]]},
                          line[:400])
 
 
@@ -414,8 +526,12 @@ def check_scenarios(ctx, scs):
                 ctx.violation(f"event {j} ({e['kind']}, i={e['i']} ms, T={e['T']} ms, start {e['start']}): " + "; ".join(bad[:3]),
                               strip(sc), classify(sc, bad))
             ctx.cover(f"kind_{e['kind']}")
+            for v in (e.get("faults") or {}).values():
+                ctx.cover("fault_injected_transport" if v == "t" else "fault_injected_encode")
+            if e.get("mutate"):
+                ctx.cover("caller_mutates_position_dict")
             ctx.cover("T_zero" if e["T"] == 0 else ("T_multiple_of_i" if e["T"] % e["i"] == 0 else "T_not_multiple_of_i"))
-            ctx.nontrivial(("ev", e["kind"], e["i"], e["T"], len(obs[j])))
+            ctx.nontrivial(("ev", e["kind"], e["i"], e["T"], len(obs[j]), tuple(sorted((e.get("faults") or {}).items())), bool(e.get("mutate"))))
         bad = oracle_scenario(sc, obs)
         if bad:
             ctx.violation("; ".join(bad[:3]), strip(sc), classify(sc, bad))
@@ -425,6 +541,9 @@ def check_scenarios(ctx, scs):
         ls, order = model_lines(sc)
         metas.append((len(lines_all), len(ls), order))
         lines_all += ls
+    v = tx_variants()
+    ctx.cover(f"variant_loop_{v['loop']}")
+    ctx.cover(f"variant_position_{v['pos']}")
     if ctx.model_ok and lines_all:
         out = ctx.model("Denm", lines_all)
         for sc, (obs, endings), (a, n, order) in zip(scs, results, metas):
@@ -464,11 +583,23 @@ def gen_event(rng, horizon, kinds):
     lon = rng.choice([rng.randrange(-1800000000, 1800000001), 21000000 + rng.randrange(-10 ** 6, 10 ** 6), -703000000, 0, 1800000000, -1800000000])
     if kind == "crw":
         i, T = 100, 0
-    return {"kind": kind, "i": i, "T": T, "lat": lat, "lon": lon, "start": rng.randrange(0, horizon + 1)}
+    ev = {"kind": kind, "i": i, "T": T, "lat": lat, "lon": lon, "start": rng.randrange(0, horizon + 1)}
+    n = ceil_div(T, i) if T > 0 else 0
+    if kind != "crw" and n >= 1 and rng.random() < 0.2:
+        # failure injection below the service: the transport raises / the coder raises at some repetitions
+        ks = {rng.choice([0, 1, n - 1, n // 2, rng.randrange(n)]) for _ in range(rng.choice([1, 1, 2, 3]))}
+        ev["faults"] = {str(k): rng.choice(["t", "t", "e"]) for k in sorted(ks) if 0 <= k < n}
+    if kind == "direct" and n >= 2 and rng.random() < 0.15:
+        # the caller overwrites the position dictionary it handed over while the event still repeats
+        ev["mutate"] = {"at": rng.choice([0, 1, i // 2, i - 1, i, i + 1, (n - 1) * i - 1, rng.randrange(0, (n - 1) * i)]),
+                        "lat": -lat // 2 + 12345, "lon": -lon // 2 - 54321}
+        if abs(ev["mutate"]["lat"] - lat) < 10 and abs(ev["mutate"]["lon"] - lon) < 10:
+            ev["mutate"]["lat"] = lat - 100000 if lat > 0 else lat + 100000
+    return ev
 
 
 def gen_scenario(rng):
-    n = rng.choice([1, 2, 2, 3, 4])
+    n = rng.choice([1, 2, 2, 2, 3, 3, 4, 4, 6])
     kinds = rng.choice([["direct"], ["eva"], ["direct", "eva"], ["direct", "eva", "crw"], ["eva", "crw"]])
     horizon = rng.choice([0, 50, 500, 3000, 20000])
     evs = [gen_event(rng, horizon, kinds) for _ in range(n)]
@@ -500,6 +631,17 @@ FIXED_SCENARIOS = [
         {"kind": "direct", "i": 100, "T": 0, "lat": 5, "lon": 5, "start": 10},
         {"kind": "direct", "i": 10000, "T": 1, "lat": 900000000, "lon": -1800000000, "start": 20},
         {"kind": "crw", "i": 100, "T": 0, "lat": 415000000, "lon": 21000000, "start": 30}]},
+    # the transport layer raises at the second of three repetitions: the third must still be handed over (witness of C17-F3)
+    {"station": 11, "seq0": 0, "events": [
+        {"kind": "direct", "i": 1000, "T": 3000, "lat": 415000000, "lon": 21000000, "start": 0, "faults": {"1": "t"}}]},
+    # the first DENM of an event cannot be encoded, the last one is refused by the transport; a second event overlaps
+    {"station": 12, "seq0": 65535, "events": [
+        {"kind": "eva", "i": 500, "T": 1750, "lat": -337000000, "lon": -703000000, "start": 0, "faults": {"0": "e", "3": "t"}},
+        {"kind": "direct", "i": 250, "T": 1000, "lat": 5, "lon": -5, "start": 600, "faults": {"0": "t", "1": "t", "2": "t", "3": "t"}}]},
+    # the caller re-uses the position dictionary of its request while the event repeats (witness of C17-F4)
+    {"station": 13, "seq0": 0, "events": [
+        {"kind": "direct", "i": 1000, "T": 4000, "lat": 415000000, "lon": 21000000, "start": 0,
+         "mutate": {"at": 1500, "lat": -337000000, "lon": -703000000}}]},
 ]
 
 
@@ -548,55 +690,50 @@ class StubLDM:
         return None
 
 
-def gen_rx_denm(rng, station=None):
+RX_OPT = ("termination", "awarenessDistance", "trafficDirection", "validityDuration", "transmissionInterval")
+RX_SUBSETS = [tuple(n for b, n in enumerate(RX_OPT) if mask >> b & 1) for mask in range(32)]
+# the LDM of the reception check: LDMFactory default (dictionary data base, reactive maintenance) around this position.
+# `location_builder_circle` always sets RelevanceDistance(1) (`value < 100`), compared with the RAW coordinate distance
+LDM_LAT, LDM_LON, LDM_ALT, LDM_REL = 415000000, 21000000, 0, 100
+LDM_MAX_ALT = 15
+
+
+def gen_rx_denm(rng, station=None, subset=None, near=False):
+    """a DENM as another vendor's station may send it: `subset` = the optional management fields present
+    (None: each with probability 1/2); `near`: event position within the LDM's tiny area of maintenance"""
     lat = rng.choice([rng.randrange(-900000000, 900000002), 415000000, -337000000, 0, 900000001])
     lon = rng.choice([rng.randrange(-1800000000, 1800000002), 21000000, -703000000, 0, 1800000001])
     alt = rng.choice([-100000, 0, 16350, 800000, 800001, rng.randrange(-100000, 800002)])
+    if near:
+        lat, lon = LDM_LAT + rng.choice([0, 1, -70, 99, 100, -101]), LDM_LON + rng.choice([0, -1, 70, 5, 0, 0])
+        alt = LDM_ALT + rng.choice([0, 1, 2, 3, 12, 13, 14, 15, 16, 17, -1, -2, -3, -4, -16, -17])
     station = rng.randrange(2 ** 32) if station is None else station
     m = {"actionId": {"originatingStationId": rng.choice([station, rng.randrange(2 ** 32)]), "sequenceNumber": rng.choice([0, 1, 65535, rng.randrange(65536)])},
          "detectionTime": rng.randrange(0, 4398046511104), "referenceTime": rng.choice([0, 4398046511103, rng.randrange(0, 4398046511104)]),
          "eventPosition": event_position(lat, lon, alt), "stationType": rng.randrange(0, 256)}
-    if rng.random() < 0.5:
+    def has(name, p):
+        return (name in subset) if subset is not None else rng.random() < p
+
+    if has("termination", 0.5):
         m["termination"] = rng.choice(["isCancellation", "isNegation"])
-    if rng.random() < 0.5:
+    if has("awarenessDistance", 0.5):
         m["awarenessDistance"] = rng.choice(["lessThan50m", "lessThan100m", "lessThan200m", "lessThan500m", "lessThan1000m", "lessThan5km", "lessThan10km", "over10km"])
-    if rng.random() < 0.5:
+    if has("trafficDirection", 0.5):
         m["trafficDirection"] = rng.choice(["allTrafficDirections", "sameAsReferenceDirection-upstreamOfReferencePosition",
                                             "sameAsReferenceDirection-downstreamOfReferencePosition", "oppositeToReferenceDirection"])
-    if rng.random() < 0.6:
+    if has("validityDuration", 0.6):
         m["validityDuration"] = rng.choice([0, 600, 86400, rng.randrange(0, 86401)])
-    if rng.random() < 0.5:
+    if has("transmissionInterval", 0.5):
         m["transmissionInterval"] = rng.choice([1, 100, 10000, rng.randrange(1, 10001)])
     return {"header": {"protocolVersion": 2, "messageId": 1, "stationId": station}, "denm": {"management": m}}
 
 
-def rx_one(denm_bytes_list, real_ldm):
-    """feed encoded DENMs to a real DENMReceptionManagement.  Returns list of stored (lat, lon, alt, radius, app, obj)"""
-    btp = CaptureBTP(None)
+def rx_one(denm_bytes_list, real_ldm=False):
+    """feed encoded DENMs to a real DENMReceptionManagement on the recording LDM-interface stub.
+    Returns list of (error, stored (app, lat, lon, alt, radius, obj), number of add calls).  The real LDM: `rx_maint`."""
     if real_ldm:
-        o_mono = ldm_mr_mod.time
-        ldm_mr_mod.time = types.SimpleNamespace(monotonic=lambda: 0.0, time=lambda: 0.0, sleep=lambda s: None)
-        try:
-            ldm = LDMFactory().create_ldm(Location.location_builder_circle(latitude=415000000, longitude=21000000, altitude=0, radius=5000))
-            rm = DENMReceptionManagement(_COD, btp, ldm)
-            res = []
-            for data in denm_bytes_list:
-                before = dict(ldm.ldm_maintenance.data_containers.database)
-                try:
-                    btp.cb[2002](BTPDataIndication(data=data, length=len(data), destination_port=2002))
-                    err = None
-                except Exception as e:  # noqa: BLE001
-                    err = type(e).__name__
-                after = ldm.ldm_maintenance.data_containers.database
-                new = [v for k, v in after.items() if k not in before]
-                res.append((err, [(n["application_id"], n["location"]["referencePosition"]["latitude"],
-                                   n["location"]["referencePosition"]["longitude"],
-                                   n["location"]["referencePosition"]["altitude"]["altitudeValue"],
-                                   n["location"]["referenceArea"]["geometricArea"]["circle"]["radius"], n["dataObject"]) for n in new],
-                            len(after)))
-            return res
-        finally:
-            ldm_mr_mod.time = o_mono
+        raise Infra("rx_one: the real LDM is exercised by rx_maint (maintenance running)")
+    btp = CaptureBTP(None)
     ldm = StubLDM()
     DENMReceptionManagement(_COD, btp, ldm)
     res = []
@@ -612,6 +749,107 @@ def rx_one(denm_bytes_list, real_ldm):
                            q.location.reference_position.altitude.altitude_value,
                            q.location.reference_area.geometric_area.circle.radius, q.data_object) for q in new], len(ldm.added)))
     return res
+
+
+def in_area_of_maintenance(lat, lon, alt):
+    """EN 302 895 5.3.2 for the configuration above: inside the area of maintenance = within the relevance distance
+    of the LDM position and within the altitude band (squared difference below the constant)"""
+    return (lat - LDM_LAT) ** 2 + (lon - LDM_LON) ** 2 < LDM_REL ** 2 and (alt - LDM_ALT) ** 2 < LDM_MAX_ALT
+
+
+def kf1_region(lat, lon, alt):
+    """signature of C17-KF1 (= C12-KF1 seen through DENM reception): where the area collection of the code AS IT IS
+    deletes - objects NEAR the LDM position, altitude difference `^ 2` evaluated as XOR"""
+    return (lat - LDM_LAT) ** 2 + (lon - LDM_LON) ** 2 < LDM_REL ** 2 and ((alt - LDM_ALT) ^ 2) < LDM_MAX_ALT
+
+
+def _fresh_ldm():
+    return LDMFactory().create_ldm(Location.location_builder_circle(latitude=LDM_LAT, longitude=LDM_LON, altitude=LDM_ALT, radius=5000))
+
+
+class _MaintClock:
+    """time.monotonic of ldm_maintenance_reactive on the virtual clock, in exact binary fractions of a second"""
+
+    def __init__(self, clock):
+        self.clock = clock
+
+    def __enter__(self):
+        self.old = ldm_mr_mod.time
+        mono = lambda: (self.clock.ms - T0) / 1000.0   # noqa: E731 - multiples of 125 ms: exact floats
+        ldm_mr_mod.time = types.SimpleNamespace(monotonic=mono, time=mono, sleep=lambda s: None)
+        return self
+
+    def __exit__(self, *a):
+        ldm_mr_mod.time = self.old
+
+
+_LDM_VARIANT = None
+
+
+def ldm_area_variant():
+    """which objects does the area collection of the tree under test delete?  'as-is' (objects near the LDM position:
+    C12-KF1) or 'repaired' (objects outside the area of maintenance).  Probed on the real LDM."""
+    global _LDM_VARIANT
+    if _LDM_VARIANT is None:
+        with rs.VClock(T0) as clock, _MaintClock(clock):
+            ldm = _fresh_ldm()
+            mk = lambda la, lo: AddDataProviderReq(   # noqa: E731
+                application_id=DENM_APP_ID, timestamp=TimestampIts.initialize_with_utc_timestamp_seconds(),
+                location=Location.location_builder_circle(latitude=la, longitude=lo, altitude=LDM_ALT, radius=0),
+                data_object={"denm": {}}, time_validity=TimeValidity(3))
+            ldm.ldm_maintenance.add_provider_data(mk(LDM_LAT, LDM_LON))
+            ldm.ldm_maintenance.add_provider_data(mk(LDM_LAT + 10 ** 7, LDM_LON))
+            clock.ms += 1000
+            ldm.ldm_maintenance.add_provider_data(mk(LDM_LAT + 2 * 10 ** 7, LDM_LON))
+            lats = sorted(v["location"]["referencePosition"]["latitude"] - LDM_LAT for v in ldm.ldm_maintenance.data_containers.database.values())
+        _LDM_VARIANT = {(10 ** 7, 2 * 10 ** 7): "as-is", (0,): "repaired"}.get(tuple(lats), f"other{lats}")
+    return _LDM_VARIANT
+
+
+def rx_maint(items):
+    """feed (encoded DENM, gap ms before it) to a real DENMReceptionManagement on the LDM built by LDMFactory with its
+    reactive maintenance RUNNING on the virtual clock.  Per DENM: (error, new records present after the callback,
+    was a collection due at this add, number of records)"""
+    btp = CaptureBTP(None)
+    res = []
+    with rs.VClock(T0) as clock, _MaintClock(clock):
+        ldm = _fresh_ldm()
+        rm = DENMReceptionManagement(_COD, btp, ldm)   # noqa: F841
+        last = clock.ms
+        for data, gap in items:
+            clock.ms += gap
+            due = clock.ms - last >= 1000
+            if due:
+                last = clock.ms
+            before = dict(ldm.ldm_maintenance.data_containers.database)
+            try:
+                btp.cb[2002](BTPDataIndication(data=data, length=len(data), destination_port=2002))
+                err = None
+            except Exception as e:  # noqa: BLE001
+                err = type(e).__name__
+            after = ldm.ldm_maintenance.data_containers.database
+            new = [v for k, v in after.items() if k not in before]
+            res.append((err, [(n["application_id"], n["location"]["referencePosition"]["latitude"],
+                               n["location"]["referencePosition"]["longitude"],
+                               n["location"]["referencePosition"]["altitude"]["altitudeValue"],
+                               n["location"]["referenceArea"]["geometricArea"]["circle"]["radius"], n["dataObject"]) for n in new],
+                        len(after), due))
+    return res
+
+
+def oracle_rx_maint(denm, stored):
+    """a received DENM is stored in the LDM at its event position - the LDM may legitimately drop an object that lies
+    outside its area of maintenance at a collection (EN 302 895 5.3.2), nothing else.  Returns (violations, finding id)"""
+    err, new, _, due = stored
+    ep = denm["denm"]["management"]["eventPosition"]
+    if err or new:
+        return oracle_rx(denm, stored[:3]), None
+    lat, lon, alt = ep["latitude"], ep["longitude"], ep["altitude"]["altitudeValue"]
+    if due and not in_area_of_maintenance(lat, lon, alt):
+        return [], "legit"
+    what = (f"received DENM is not in the LDM after reception (collection due: {due}; event position "
+            f"{(lat, lon, alt)} is {'inside' if in_area_of_maintenance(lat, lon, alt) else 'outside'} the area of maintenance)")
+    return [what], ("C17-KF1" if due and kf1_region(lat, lon, alt) else None)
 
 
 def oracle_rx(denm, stored):
@@ -634,37 +872,74 @@ def oracle_rx(denm, stored):
     return bad
 
 
-def check_rx(ctx, denms):
+RX_GAPS = [0, 0, 125, 500, 875, 1000, 1125, 2000, 3000, 3125, 5000]
+
+
+def check_rx(ctx, denms, gaps=None):
+    """reception: every DENM through the real coder into (a) a recording stub of the LDM interface and (b) the LDM built
+    by LDMFactory with its reactive maintenance running on the virtual clock (collections become due between DENMs)"""
     datas = [_COD.encode(d) for d in denms]
+    if gaps is None:
+        gaps = [ctx.rng.choice(RX_GAPS) for _ in denms]
+    variant = ldm_area_variant()
+    ctx.cover("ldm_area_collection_" + variant)
     with rs.VClock(T0):
         stub = rx_one(datas, False)
-        real = rx_one(datas, True)
+    real = rx_maint(list(zip(datas, gaps)))
     lines = ["ldmreset"]
-    for d in denms:
+    for d, r in zip(denms, real):
         m = d["denm"]["management"]
         ep = m["eventPosition"]
-        lines.append(f"rx {m['actionId']['originatingStationId']} {m['actionId']['sequenceNumber']} {m['referenceTime']} "
-                     f"{ep['latitude']} {ep['longitude']} {ep['altitude']['altitudeValue']}")
-    out = ctx.model("Denm", lines)[1:] if ctx.model_ok else [None] * len(denms)
-    for d, s, r, mo in zip(denms, stub, real, out):
+        key = f"{m['actionId']['originatingStationId']} {m['actionId']['sequenceNumber']} {m['referenceTime']} {ep['latitude']} {ep['longitude']} {ep['altitude']['altitudeValue']}"
+        lines.append("rx " + key)
+        pos = (ep["latitude"], ep["longitude"], ep["altitude"]["altitudeValue"])
+        sel = kf1_region(*pos) if variant == "as-is" else not in_area_of_maintenance(*pos)
+        lines.append(f"rxm {key} {int(r[3])} {int(sel)}")
+    out = ctx.model("Denm", lines)[1:] if ctx.model_ok else [None] * (2 * len(denms))
+    for n, (d, s, r) in enumerate(zip(denms, stub, real)):
+        mo, mm = out[2 * n], out[2 * n + 1]
         ctx.evals(2)
         m = d["denm"]["management"]
-        for tag, st in (("stub", s), ("ldm", r)):
-            bad = oracle_rx(d, st)
-            if bad:
-                ctx.violation(f"received DENM ({tag}): " + "; ".join(bad), {"kind": "rx", "denm": d})
-        ctx.nontrivial(("rx", tuple(sorted(m.keys())), m["eventPosition"]["latitude"] < 0, m["eventPosition"]["longitude"] < 0))
-        ctx.cover("rx_mgmt_optional_fields_%d" % len([k for k in ("termination", "awarenessDistance", "trafficDirection", "validityDuration", "transmissionInterval") if k in m]))
+        bad = oracle_rx(d, s)
+        if bad:
+            ctx.violation("received DENM (LDM interface stub): " + "; ".join(bad), {"kind": "rx", "denm": d})
+        bad, fid = oracle_rx_maint(d, r)
+        if fid == "legit":
+            ctx.cover("rx_outside_area_of_maintenance_collected")
+        elif bad:
+            ctx.violation("received DENM (LDM with running maintenance): " + "; ".join(bad),
+                          {"kind": "rx", "denm": d, "due": r[3]}, fid)
+        ctx.nontrivial(("rx", tuple(sorted(m.keys())), m["eventPosition"]["latitude"] < 0, m["eventPosition"]["longitude"] < 0, r[3]))
+        ctx.cover("rx_mgmt_optional_fields_%d" % len([k for k in RX_OPT if k in m]))
+        ctx.cover("rx_collection_due" if r[3] else "rx_no_collection")
+        if kf1_region(m["eventPosition"]["latitude"], m["eventPosition"]["longitude"], m["eventPosition"]["altitude"]["altitudeValue"]):
+            ctx.cover("rx_event_position_next_to_station")
         if mo is not None and not s[0] and len(s[1]) == 1:
             app, lat, lon, alt, radius, obj = s[1][0]
             om = obj["denm"]["management"]
             realline = f"{s[2]} {app} {lat} {lon} {alt} {radius} {om['actionId']['originatingStationId']} {om['actionId']['sequenceNumber']} {om['referenceTime']}"
             if realline != mo:
                 ctx.mismatch("denm.rx", {"kind": "rx", "denm": d}, realline, mo)
-            if r[1] and (r[2],) + tuple(r[1][0][:5]) != (s[2],) + tuple(s[1][0][:5]):
-                ctx.mismatch("denm.rx.real_ldm_vs_stub", {"kind": "rx", "denm": d}, [r[2]] + list(r[1][0][:5]), mo)
+        if mm is not None and not r[0]:
+            if r[1]:
+                app, lat, lon, alt, radius, obj = r[1][0]
+                om = obj["denm"]["management"]
+                realline = f"stored {app} {lat} {lon} {alt} {radius} {om['actionId']['originatingStationId']} {om['actionId']['sequenceNumber']} {om['referenceTime']}"
+            else:
+                realline = "collected"
+            if len(r[1]) > 1 or realline != mm:
+                ctx.mismatch("denm.rx.maintenance", {"kind": "rx", "denm": d, "due": r[3]}, realline, mm)
     if denms:
         ctx.sample("rx", {"denm": denms[0], "stored": [list(x[:5]) for x in stub[0][1]]})
+
+
+def rx_cases(rng, n_random):
+    """every subset of the optional management fields (x3, one of them next to the station), then random ones"""
+    out = []
+    for sub in RX_SUBSETS:
+        out += [gen_rx_denm(rng, subset=sub), gen_rx_denm(rng, subset=sub), gen_rx_denm(rng, subset=sub, near=True)]
+    out += [gen_rx_denm(rng, near=(k % 10 == 0)) for k in range(n_random)]
+    return out
 
 
 def check_loopback(ctx, results, scs):
@@ -692,6 +967,229 @@ def check_loopback(ctx, results, scs):
     ctx.cover("loopback_tx_to_rx", len(pairs))
 
 
+# ---------------------------------------------------------------------------------------------- concurrent origination
+
+class _SThread:
+    """threading.Thread as seen by the transmission-management module under harness/dsched.py: `start()` registers a
+    scheduler-managed thread (it may run at any later point the policy chooses)"""
+
+    def __init__(self, target=None, args=(), kwargs=None, daemon=None, **_):
+        self.target, self.args, self.kwargs = target, tuple(args), dict(kwargs or {})
+
+    def start(self):
+        s = dsched._active
+        if s is None or s.me() is None:
+            raise Infra("Thread started outside a scheduled run")
+        s.spawn(lambda: self.target(*self.args, **self.kwargs), name=f"rep{len(s.threads)}[{s.me().name}]")
+        s.yield_point("start")
+
+    def join(self, timeout=None):
+        pass
+
+    def is_alive(self):
+        return False
+
+
+def _alloc_lat(idx):
+    return 1000000 * (idx + 1)
+
+
+class AllocRun:
+    """several application threads originate events of ONE station at the same time, on the real
+    DENMTransmissionManagement under harness/dsched.py: pre-emption before every attribute access / call inside
+    `allocate_sequence_number` (opcode level), at lock acquire / release, at thread start and at every `time.sleep`.
+    ops: ["rep", n] trigger_denm_messages on the calling thread (n repetitions), ["req", n] request_denm_sending
+    (starts its own repetition thread), ["crw"] send_collision_risk_warning_denm."""
+
+    def __init__(self, sc, policy, max_steps=20000):
+        self.sc = sc
+        log = self.log = []
+
+        class Cap:
+            def btp_data_request(self_, request):      # noqa: N805
+                d = _COD.decode(request.data)
+                m = d["denm"]["management"]
+                log.append((m["eventPosition"]["latitude"], d["header"]["stationId"],
+                            (m["actionId"]["originatingStationId"], m["actionId"]["sequenceNumber"]),
+                            request.gn_area.latitude))
+
+            def register_indication_callback_btp(self_, port, callback):   # noqa: N805
+                pass
+
+        def vsleep(_seconds):
+            if dsched._active is not None and dsched._active.me() is not None:
+                dsched._active.yield_point("op")
+
+        o_time, o_coder = tm_mod.time, den_mod.DENMCoder
+        ft = types.SimpleNamespace(**{k: getattr(o_time, k) for k in dir(o_time) if not k.startswith("__")})
+        ft.sleep = vsleep
+        with rs.VClock(T0) as clock:
+            tm_mod.time, den_mod.DENMCoder = ft, (lambda: _COD)
+            try:
+                with dsched.patched([tm_mod], extra={"Thread": _SThread}):
+                    den = DecentralizedEnvironmentalNotificationService(Cap(), VehicleData(station_id=sc["station"], station_type=5))
+                    tmm = den.denm_transmission_management
+                    tmm.sequence_number = sc.get("seq0", 0)
+                    if sc.get("nolock"):        # self-test hook of the HARNESS only: emulate a dropped `with`
+                        tmm._sequence_number_lock = dsched.NoLock()
+                    s = dsched.DSched(policy, line_files=(), opcode_codes=[type(tmm).allocate_sequence_number.__code__],
+                                      max_steps=max_steps)
+                    idx = 0
+                    for ti, ops in enumerate(sc["threads"]):
+                        calls = []
+                        for op in ops:
+                            lat = _alloc_lat(idx)
+                            idx += 1
+                            if op[0] == "crw":
+                                req = DENRequest.with_collision_risk_warning(
+                                    TimestampIts(clock.ms - ITS_SUB),
+                                    ReferencePosition(lat, 5, PositionConfidenceEllipse(4095, 4095, 3601), Altitude(800001, "unavailable")))
+                                calls.append((tmm.send_collision_risk_warning_denm, req))
+                            else:
+                                req = DENRequest(denm_interval=100, time_period=100 * op[1], detection_time=clock.ms - ITS_SUB,
+                                                 event_position=event_position(lat, 5), relevance_distance="lessThan200m",
+                                                 relevance_traffic_direction="upstreamTraffic",
+                                                 rhs_cause_code="emergencyVehicleApproaching95", rhs_subcause_code=1,
+                                                 rhs_event_speed=30, rhs_vehicle_type=0)
+                                calls.append((tmm.trigger_denm_messages if op[0] == "rep" else tmm.request_denm_sending, req))
+
+                        def body(calls=calls):
+                            for fn, req in calls:
+                                fn(req)
+                        s.spawn(body, name=f"T{ti}")
+                    self.n_events = idx
+                    with rs.quiet():
+                        s.run(timeout=30.0)
+                    self.final = tmm.sequence_number
+            finally:
+                tm_mod.time, den_mod.DENMCoder = o_time, o_coder
+        self.s = s
+        self.steps = s.steps
+        self.choices = [c[0] for c in s.steps]
+        self.excs = sorted((t.name, type(t.exc).__name__) for t in s.threads if t.exc is not None)
+
+    def want(self):
+        """messages per event (in op order)"""
+        return [1 if op[0] == "crw" else op[1] for ops in self.sc["threads"] for op in ops]
+
+    def per_event(self):
+        out = [[] for _ in range(self.n_events)]
+        for lat, station, aid, centre in self.log:
+            out[lat // 1000000 - 1].append((station, aid, centre == lat))
+        return out
+
+    def outcome(self):
+        pe = self.per_event()
+        return (tuple(sorted(m[0][1][1] for m in pe if m)), self.final, self.s.abort_reason, tuple(self.excs))
+
+    def judge(self):
+        """property text: stable identity within an event, different events of one station -> different action ids"""
+        bad = []
+        if self.s.abort_reason:
+            bad.append(f"run aborted: {self.s.abort_reason} {self.s.deadlock or ''}")
+        for name, exc in self.excs:
+            bad.append(f"thread {name} raised {exc}")
+        pe = self.per_event()
+        ids = {}
+        for j, (msgs, n) in enumerate(zip(pe, self.want())):
+            if len(msgs) != n:
+                bad.append(f"event {j}: {len(msgs)} DENMs handed over, {n} expected")
+            if any(m[1] != msgs[0][1] for m in msgs):
+                bad.append(f"event {j}: action id changes within the event {sorted({m[1] for m in msgs})}")
+            if any(m[0] != self.sc["station"] or m[1][0] != self.sc["station"] or not m[2] for m in msgs):
+                bad.append(f"event {j}: station identity / circle centre wrong")
+            if msgs:
+                ids.setdefault(msgs[0][1], []).append(j)
+        for aid, js in sorted(ids.items()):
+            if len(js) > 1:
+                bad.append(f"events {js} originated concurrently by one station share action id {list(aid)}")
+        return bad
+
+
+ALLOC_SCENARIOS = [
+    {"name": "two_requests", "threads": [[["req", 2]], [["req", 1]]]},
+    {"name": "two_direct", "threads": [[["rep", 1]], [["rep", 2]]]},
+    {"name": "repeated_vs_crw", "threads": [[["rep", 2]], [["crw"]]]},
+    {"name": "one_app_two_requests_vs_crw", "threads": [[["req", 1], ["req", 1]], [["crw"]]]},
+    {"name": "three_apps", "threads": [[["rep", 1]], [["crw"]], [["req", 1]]]},
+]
+
+
+def alloc_scenarios(ctx):
+    out = []
+    for base in ALLOC_SCENARIOS:
+        sc = copy.deepcopy(base)
+        sc.update(kind="alloc", station=ctx.rng.choice([1, 4242, 4294967295]), seq0=ctx.rng.choice([0, 0, 65534, 65535, ctx.rng.randrange(65536)]))
+        out.append(sc)
+    return out
+
+
+def explore_alloc(ctx, sc, bound, cap, n_pct, observed):
+    """systematic enumeration up to `bound` pre-emptions (capped), then PCT; every run is judged"""
+    state = {"est": 100, "found": 0}
+
+    def handle(run):
+        ctx.evals()
+        out = run.outcome()
+        bad = run.judge()
+        ctx.cover("conc_runs_" + sc["name"])
+        ctx.cover("conc_preemptions_%d" % min(dsched.preemptions(run.steps), 4))
+        ctx.nontrivial((sc["name"], out))
+        if bad:
+            state["found"] += 1
+            if state["found"] == 1:
+                again = AllocRun(sc, dsched.Replay(run.choices))
+                if again.outcome() != out:
+                    ctx.note(f"{sc['name']}: schedule replay diverged ({again.outcome()} vs {out})")
+            ctx.violation(f"concurrent origination ({sc['name']}): {bad[0]}",
+                          {"kind": "alloc", "scenario": sc, "schedule": run.choices, "violations": bad[:5]})
+        else:
+            observed.setdefault((sc["name"], sc["seq0"], run.n_events, out[:2]), run.choices)
+        return run
+
+    def once(prefix):
+        run = handle(AllocRun(sc, dsched.Replay(prefix)))
+        state["est"] = max(state["est"], run.s.nsteps)
+        return run.steps
+
+    runs, exhausted = dsched.enumerate_schedules(once, bound, cap, ctx.rng)
+    ctx.cover("conc_systematic_runs", runs)
+    if exhausted:
+        ctx.cover("conc_systematic_exhausted_bound_%d" % bound)
+    for k in range(n_pct):
+        handle(AllocRun(sc, dsched.PCT(ctx.rng, depth=2 + k % 3, est_steps=state["est"])))
+    ctx.cover("conc_pct_runs", n_pct)
+    return state["found"]
+
+
+def check_alloc_model(ctx, observed):
+    """every observed outcome of a violation-free run must be the sequential allocation of the Lean model in SOME
+    service order (theorem alloc_linearizable): the sequence numbers handed out are seq0 .. seq0+n-1 mod 65536,
+    the counter ends at seq0+n"""
+    if not ctx.model_ok or not observed:
+        return
+    keys = sorted(observed)
+    out = ctx.model("Denm", [f"allocs {seq0} {n}" for (_, seq0, n, _) in keys])
+    for key, line in zip(keys, out):
+        name, seq0, n, (seqs, final) = key
+        toks = [int(x) for x in line.split()]
+        if (final, list(seqs)) != (toks[0], sorted(toks[1:])):
+            ctx.mismatch("denm.alloc", {"kind": "alloc", "scenario": name, "seq0": seq0, "schedule": observed[key]},
+                         [final, list(seqs)], line)
+
+
+def check_alloc(ctx, search=False):
+    observed = {}
+    scs = alloc_scenarios(ctx)
+    for sc in scs:
+        big = len(sc["threads"]) > 2 or sum(len(t) for t in sc["threads"]) > 2
+        if search:
+            explore_alloc(ctx, sc, 2, ctx.scale(600, 3000), ctx.scale(60, 400), observed)
+        else:
+            explore_alloc(ctx, sc, 2 if not big else 1, ctx.scale(30 if big else 60, 1500), ctx.scale(4, 200), observed)
+    check_alloc_model(ctx, observed)
+
+
 # ---------------------------------------------------------------------------------------------- entry points
 
 def run(ctx):
@@ -702,17 +1200,26 @@ def run(ctx):
     with rs.quiet():
         corp = [c for _, c in corpus("C17")]
         scs = [c for c in corp if c.get("kind") == "scenario"]
-        rxs = [c["denm"] for c in corp if c.get("kind") == "rx"]
+        rxc = [c for c in corp if c.get("kind") == "rx"]
+        rxs = [c["denm"] for c in rxc]
         ctx.cover("corpus_cases", len(corp))
         check_scenarios(ctx, scs)
         if rxs:
-            check_rx(ctx, rxs)
+            check_rx(ctx, rxs, [1000 if c.get("due") else 0 for c in rxc])
         check_degenerate(ctx)
         fixed = [copy.deepcopy(s) for s in FIXED_SCENARIOS]
-        gen = [gen_scenario(ctx.rng) for _ in range(ctx.scale(600, 9000))]
+        gen = [gen_scenario(ctx.rng) for _ in range(ctx.scale(450, 9000))]
         res = check_scenarios(ctx, fixed + gen)
         check_loopback(ctx, res, fixed + gen)
-        check_rx(ctx, [gen_rx_denm(ctx.rng) for _ in range(ctx.scale(3000, 60000))])
+        check_rx(ctx, rx_cases(ctx.rng, ctx.scale(2500, 60000)))
+        ctx.cover("rx_mgmt_field_subsets_enumerated", len(RX_SUBSETS))
+        for c in corp:
+            if c.get("kind") == "alloc":
+                r = AllocRun(c["scenario"], dsched.Replay(c.get("schedule", [])))
+                ctx.evals()
+                for b in r.judge()[:1]:
+                    ctx.violation(f"concurrent origination (corpus {c['scenario'].get('name')}): {b}", c)
+        check_alloc(ctx)
 
 
 def search(ctx):
@@ -720,8 +1227,9 @@ def search(ctx):
     ctx.model_ok = False
     try:
         with rs.quiet():
-            check_scenarios(ctx, [gen_scenario(ctx.rng) for _ in range(ctx.scale(3600, 27000))])
-            check_rx(ctx, [gen_rx_denm(ctx.rng) for _ in range(ctx.scale(9000, 300000))])
+            check_scenarios(ctx, [gen_scenario(ctx.rng) for _ in range(ctx.scale(2700, 27000))])
+            check_rx(ctx, rx_cases(ctx.rng, ctx.scale(9000, 300000)))
+            check_alloc(ctx, search=True)
     finally:
         ctx.model_ok = ok
 
@@ -749,8 +1257,17 @@ def replay(ctx, obj):
         with rs.quiet():
             data = _COD.encode(case["denm"])
             with rs.VClock(T0):
-                res = [rx_one([data], False)[0], rx_one([data], True)[0]]
-        bad = [b for st in res for b in oracle_rx(case["denm"], st)]
+                st = rx_one([data], False)[0]
+            bad = oracle_rx(case["denm"], st)
+            for gap in ([1000] if case.get("due") else [0] if "due" in case else [0, 1000]):
+                b, fid = oracle_rx_maint(case["denm"], rx_maint([(data, gap)])[0])
+                bad += [] if fid == "legit" else b
+        print("oracle:", bad or "ok")
+        return bool(bad)
+    if kind == "alloc":
+        r = AllocRun(case["scenario"], dsched.Replay(case.get("schedule", [])))
+        bad = r.judge()
+        print("action ids per event:", [sorted({m[1] for m in msgs}) for msgs in r.per_event()], "counter:", r.final)
         print("oracle:", bad or "ok")
         return bool(bad)
     raise Infra(f"unknown replay kind {kind}")
